@@ -1,4 +1,4 @@
-/- REGENERATED on every run by `corr C17.tables` from the code in /work/seed2-C17. Do not edit. -/
+/- REGENERATED on every run by `corr C17.tables` from the code in /repo. Do not edit. -/
 namespace Generated.C17
 /-- `services.State` constants: (name, numeric value) read from the running code. -/
 def stateValues : List (String × Nat) := [("New", 0), ("Starting", 1), ("Running", 2), ("Stopping", 3), ("Terminated", 4), ("Failed", 5)]
